@@ -22,6 +22,7 @@ type Case struct {
 	Input      any      `json:"input"`           // replayable (JSON) form of the input
 	Observed   any      `json:"observed"`        // what the implementation returned, human readable
 	Key        string   `json:"key,omitempty"`   // "" = D_ok; otherwise the known-finding domain the INPUT lies in
+	Keys       map[string]string `json:"keys,omitempty"` // per property (multi-monitor drivers): property id -> domain key
 	Coq        string   `json:"-"`               // Coq term of the property's `case` type
 	Sig        string   `json:"-"`               // canonical signature (distinctness)
 	Nontrivial bool     `json:"nontrivial"`      // by the property's stated rule
@@ -43,6 +44,12 @@ type Prop interface {
 	Decode(raw json.RawMessage) (any, error)
 	// Run executes the implementation on the input.
 	Run(input any) Case
+}
+
+// MultiMonitor is implemented by drivers whose cases are judged by several property monitors at once
+// (the joint controller model): the case file then prints one list V_<name> per monitor.
+type MultiMonitor interface {
+	Monitors() []string
 }
 
 // Summary is written next to the case files.
@@ -181,9 +188,14 @@ func WriteCases(p Prop, seed int64, cases []Case, out string, extra map[string]a
 			fmt.Fprintf(&b, "(%d%%nat, c%d)", i, i)
 		}
 		b.WriteString("].\n")
-		fmt.Fprintf(&b, "Definition M := Eval vm_compute in %s.mismatches cases.\n", p.CoqModule())
-		fmt.Fprintf(&b, "Definition V := Eval vm_compute in %s.violations cases.\n", p.CoqModule())
-		b.WriteString("Print M.\nPrint V.\n")
+		fmt.Fprintf(&b, "Definition M := Eval vm_compute in %s.mismatches cases.\nPrint M.\n", p.CoqModule())
+		if mm, ok := p.(MultiMonitor); ok {
+			for _, name := range mm.Monitors() {
+				fmt.Fprintf(&b, "Definition V_%s := Eval vm_compute in %s.violations_%s cases.\nPrint V_%s.\n", name, p.CoqModule(), name, name)
+			}
+		} else {
+			fmt.Fprintf(&b, "Definition V := Eval vm_compute in %s.violations cases.\nPrint V.\n", p.CoqModule())
+		}
 		path := filepath.Join(out, name+".v")
 		if err := os.WriteFile(path, []byte(b.String()), 0o644); err != nil {
 			fmt.Fprintln(os.Stderr, err)
